@@ -50,6 +50,12 @@ class C06(Prop):
             for _ in range(n):
                 ops = sg.rand_history(rng, rng.randint(6, 24), behavior=False)
                 out.append(sg.mk_case("subject", fl, ops, "random", rng=rng))
+        # wide histories: up to 14 subscribers alive together (inline capacities, free lists and other size
+        # thresholds of an implementation lie beyond the small exhaustive ranges), 40–90 operations
+        for fl in sg.SUBJECT_FLAVORS:
+            for _ in range(n // 4):
+                ops = sg.rand_history(rng, rng.randint(40, 90), behavior=False, maxsub=12)
+                out.append(sg.mk_case("subject", fl, ops, "wide", rng=rng))
         # lock level (the premise of the C06T theorems): the lock program of every SubjectThreads operation as
         # recorded through hook H2, compared token by token with the model's (the population of C10's suite
         # `locks`); the oracle below checks the one fact the interleaving argument rests on
